@@ -194,6 +194,7 @@ def items(tier, seed):
             out.append({'h': 'equ', 'mode': mode, 'first': first,
                         'n': 4 if tier == 'quick' else 5, 'cost': 3})
     out.append({'h': 'ctx'})
+    out.append({'h': 'own_ml'})
     out.append({'h': 'single_atoms', 'acc': 2, 'first': 0, 'n': 2, 'twin': True})
     out.append({'h': 'equ', 'mode': 'all', 'first': 0, 'n': 2, 'twin': True})
     return out
@@ -277,6 +278,15 @@ def build(item):
         def concrete(w):
             idx = [w[k] for k in 'abcd' if k in w]
             return judge(text(idx)) if pre(idx) else None
+        return prop, concrete
+    if h == 'own_ml':
+        from vf.props import c14
+
+        def prop(T: int):
+            return c14.own_check(T, twin) or True
+
+        def concrete(w):
+            return c14.own_check(w['T'], twin)
         return prop, concrete
     if h == 'ctx':
         txt = 'Some text with\ttabs and\nline breaks, long enough to be clipped on both sides ' \
